@@ -1,5 +1,5 @@
 """C02 Generators never crash on accepted meta-models (DESIGN §4 C02)."""
-from ..rules import err, exh, fmt, contract, exitcode, pre, anchor
+from ..rules import err, exh, fmt, contract, exitcode, pre, anchor, attr, extparse
 from ..scopes import in_generators, funcs, execute_functions
 
 CLAIM = (
@@ -9,7 +9,10 @@ CLAIM = (
     "scrutinee's declared type and every live enum-keyed dispatch table is total (a missing arm is an AssertionError/KeyError only on a "
     "shape no fixture has); (3) every execute() pairs its exit code with stderr/stdout on all paths (ERR4); (4) LenConstraint is only "
     "constructed under established `0 < min <= max` or with an unset bound (clean-path facts + zones); (5) numeric format specs and "
-    "icontract lambdas are well-typed."
+    "icontract lambdas are well-typed; (6) no attribute is read from a union-typed value when a member of the union lacks it (an "
+    "AttributeError instead of an error report), with isinstance narrowing followed through and/or/not, conditional expressions, "
+    "comprehension filters and asserts; (7) every call of an external parser on input-derived text is inside a try whose handler covers "
+    "the parser's failures (Exception for third-party parsers without a documented closed set)."
 )
 NOTE = (
     "Trusted base: resolver, CFG, the XOR convention; assert_never chains whose scrutinee type cannot be resolved are skipped and counted. "
@@ -34,6 +37,8 @@ def run(ctx) -> None:
     ctx.rule("ANCHOR-ATOMS", "patterns that make the regex-VM translator raise are rejected by the front end (same anchoring features)", floor=4)
     ctx.rule("REVM-PRE", "raising conditions of revm.transform_regex have an upstream guard", floor=2)
     ctx.rule("CONTRACT", "icontract lambdas well-typed (generators)", floor=3)
+    ctx.rule("EXT-PARSE", "external parsers (greenery, json, ElementTree, minidom, re, docutils) run on input-derived text inside a handler that covers their failures", floor=6)
+    ctx.rule("ATTR", "no attribute access on a union-typed value one of whose members lacks the attribute (short-circuit narrowing respected)", floor=400)
     for f in funcs(p, in_generators):
         err.check_err12(ctx, f, "ERR1", "ERR1v", "ERR2")
         err.check_err3(ctx, f, "ERR3")
@@ -41,6 +46,8 @@ def run(ctx) -> None:
         exh.check_exh1(ctx, f, "EXH1")
         fmt.check_format_specs(ctx, f, "FMT")
         contract.check_contract_lambdas(ctx, f, "CONTRACT")
+        attr.check_attr(ctx, f, "ATTR")
+        extparse.check_ext_parse(ctx, f, "EXT-PARSE")
     exh.check_enum_keyed_dicts(ctx, "EXH2", modules=in_generators)
     for f in execute_functions(p):
         if f.module.name != "aas_core_codegen.main":
